@@ -10,12 +10,17 @@
    arguments keep their positions and their nesting (C13_type_text_reads_back_as_the_type).
    The lexer used for reading back is a maximal-munch lexer for Rust type text restricted to
    these token kinds.
-   NOT proved here: that the declaration's own token sequence in the source is ty_tokens ty
-   (front end: cst_to_ast flattens the left-recursive lists in order); decided per input by the
-   check: every type position of the real output is re-tokenised and compared with the
+   AND the front-end link, closing the chain from the source text (C13_payload_types_read_back_as_the_source_tokens;
+   Front/TypeTokens.v, Front/TypeSource.v, Lex/IdentShape.v): for every source the model of generate
+   accepts, every payload type text stored in the validated file — the text every use site prints —
+   re-tokenises to a CONTIGUOUS SEGMENT OF THE TOKEN SEQUENCE OF THE SOURCE: the tokens the user wrote
+   after the terminal's colon (cst_to_ast flattens the left-recursive path and argument lists in
+   order; identifier tokens are non-empty runs of identifier characters, so the maximal-munch lexer
+   splits the emitted text exactly there).
+   The check still re-tokenises every type position of the REAL output and compares it with the
    declaration's token sequence. *)
 From Coq Require Import List.
-From Kiki Require Import Base.Ord Base.Chars Data Ast.Validate Ast.TypeText Emit.Emit Emit.EmitProofs.
+From Kiki Require Import Base.Ord Base.Chars Data Lex.Model Ast.Validate Ast.TypeText Emit.Emit Emit.EmitProofs Front.TypeTokens Pipeline PipelineProofs.
 
 Theorem C13_stored_type_is_the_declared_type : forall d te, validate_terminal_def d = Ok te ->
   map tvr_type (vt_variants te) = map (fun v => type_to_string (tv_type v)) (td_variants d).
@@ -37,5 +42,13 @@ Proof.
                 | (apply N; [discriminate|vm_compute; reflexivity]) ]).
 Qed.
 
+Theorem C13_payload_types_read_back_as_the_source_tokens : forall ho digest src out text,
+  generate_full ho digest src = Ok (out, text) ->
+  exists toks, tokenize src = Ok toks /\
+    forall ty, In ty (map tvr_type (vt_variants (vf_tenum (go_file out)))) ->
+      exists pre seg post, toks = pre ++ seg ++ post /\ lex_ty ty = Some (map tytok_of seg).
+Proof. exact generate_payload_types_read_back_as_the_source_tokens. Qed.
+
+Print Assumptions C13_payload_types_read_back_as_the_source_tokens.
 Print Assumptions C13_stored_type_is_the_declared_type.
 Print Assumptions C13_type_text_reads_back_as_the_type.
